@@ -124,3 +124,24 @@ uint32_t fx17_hangul_wrong_sum(uint32_t cp, uint32_t cp2) {
         return cp + (cp2 - 0x11A8);
     return fx17_pairs[(cp ^ cp2) & 0xff];
 }
+
+/* ---- Hangul decomposition: the inverse of the composition, by ties x = k*q + r */
+#define FX_HDEC(NCOUNT, VEXPR, TTEST)                                         \
+    uint32_t sindex = cp - 0xAC00;                                            \
+    uint32_t lindex = sindex / NCOUNT;                                        \
+    uint32_t vindex = VEXPR;                                                  \
+    uint32_t tindex = sindex % 28;                                            \
+    if (dmax < 4) return -1;                                                  \
+    dest[0] = lindex + 0x1100;                                                \
+    dest[1] = vindex + 0x1161;                                                \
+    if (TTEST) {                                                              \
+        dest[2] = tindex + 0x11A7;                                            \
+        dest[3] = 0;                                                          \
+        return 3;                                                             \
+    }                                                                         \
+    dest[2] = 0;                                                              \
+    return 2;
+int fx17_hdec_good(uint32_t *dest, size_t dmax, uint32_t cp) { FX_HDEC(588, (sindex % 588) / 28, tindex) }
+int fx17_hdec_ncount(uint32_t *dest, size_t dmax, uint32_t cp) { FX_HDEC(560, (sindex % 560) / 28, tindex) }
+int fx17_hdec_vmod(uint32_t *dest, size_t dmax, uint32_t cp) { FX_HDEC(588, (sindex % 588) / 21, tindex) }
+int fx17_hdec_always3(uint32_t *dest, size_t dmax, uint32_t cp) { FX_HDEC(588, (sindex % 588) / 28, 1) }
